@@ -52,6 +52,17 @@ CLAIMED['C06'] = dict(
          '(quick) / 6 (thorough); symbolic data contents <= 4 / 6 bytes.',
     design='5/C06')
 
+CLAIMED['C08'] = dict(
+    text='For each of the 23 message classes the real constructor, field setters, set_length, pydicom element writer and '
+         'Association.send run symbolically with message id / status / counters over the full 16-bit range, UID lengths '
+         'symbolic (odd/even padding), optional fields set/unset and data set present/None/empty, one send and repeated '
+         'sends of the same object with changed fields; the bytes queued for transmission are read back by an independent '
+         'implicit-VR-LE element reader: group length = bytes following, ascending tags, PS3.7 command field, data-set-type '
+         'flag <=> data fragments follow.',
+    note=TRUSTED + 'UID length range 1..4 in the quick tier (1..64 thorough); one fragment per stream (M=16384); pydicom '
+         'writer executed as is.',
+    design='5/C08')
+
 NOT_YET = 'check not built yet in this revision (see DESIGN.md section 5 for the plan)'
 
 NOT_APPLICABLE = {}
